@@ -332,6 +332,13 @@ func genMode(fine bool, rng *proto.RNG, tier string, shard, nshards int, w *bufi
 		if focus {
 			nb, calm = 5, false
 		}
+		// wfocus: a chain 2 -> 3 -> 4 whose members watch / unwatch each other (parent, child, grandchild,
+		// never-existing addresses) on user messages 1 and 2, with many terminate requests in between:
+		// watch requests before, racing with and after a termination, and un-watching one's own child
+		wfocus := c%3 == 2
+		if wfocus {
+			nb, calm = 3, true
+		}
 		behs := map[int]*behDef{}
 		r := &runner{behs: behs}
 		for b := 2; b < 2+nb; b++ {
@@ -348,6 +355,32 @@ func genMode(fine bool, rng *proto.RNG, tier string, shard, nshards int, w *bufi
 					used["user:1"] = true
 					add(fmt.Sprintf("beh %d rule user:1 panic", b))
 				}
+			}
+			if wfocus {
+				if b+1 < 2+nb {
+					used["launch"] = true
+					add(fmt.Sprintf("beh %d rule launch spawn %d", b, b+1))
+				}
+				for tag := 1; tag <= 2; tag++ {
+					var acts []string
+					for a := rng.Range(1, 2); a > 0; a-- {
+						op := "watch"
+						if rng.Intn(3) == 0 {
+							op = "unwatch"
+						}
+						tg := fmt.Sprint(rng.Range(2, 6))
+						switch rng.Intn(5) {
+						case 0:
+							tg = "parent"
+						case 1:
+							tg = "sender"
+						}
+						acts = append(acts, op+" "+tg)
+					}
+					used[fmt.Sprintf("user:%d", tag)] = true
+					add(fmt.Sprintf("beh %d rule user:%d %s", b, tag, strings.Join(acts, " ; ")))
+				}
+				nr = rng.Range(0, 2)
 			}
 			for k := 0; k < nr; k++ {
 				p := pats[rng.Intn(len(pats))]
@@ -402,11 +435,19 @@ func genMode(fine bool, rng *proto.RNG, tier string, shard, nshards int, w *bufi
 				continue
 			}
 			na := len(r.s.actors)
-			switch rng.Pick(10, 30, 3, 1, 1, 1) {
+			wKill := 3
+			if wfocus {
+				wKill = 7
+			}
+			switch rng.Pick(10, 30, wKill, 1, 1, 1) {
 			case 0:
 				if focus && na > 2 && rng.Intn(3) != 0 {
 					// the deepest actors of the chain, mostly the failing message
 					do(fmt.Sprintf("tell %d %d", rng.Range(max(2, na-3), na-1), rng.Pick(3, 1)+1))
+					continue
+				}
+				if wfocus && na > 2 {
+					do(fmt.Sprintf("tell %d %d", rng.Range(2, na-1), rng.Range(1, 2)))
 					continue
 				}
 				do(fmt.Sprintf("tell %d %d", rng.Range(0, na+1), rng.Range(1, 3)))
